@@ -27,6 +27,7 @@ func init() {
 			{ID: "C05-R1", Title: "map-ordered iteration is commutative, sorted, or constant-exit", Floor: 30, Run: c05r1},
 			{ID: "C05-R2", Title: "no nondeterministic source in the interpreter core", Floor: 8, Run: c05r2},
 			{ID: "C05-R3", Title: "global names sorted before symbol insertion", Floor: 1, Run: c05r3},
+			{ID: "C05-R4", Title: "the front end keeps no package-level state written after initialisation", Floor: 3, Run: c05r4},
 		},
 	})
 }
@@ -1485,3 +1486,125 @@ func sliceIsLocal(v ssa.Value) bool {
 // a loop element they concern that element only (an iterator element may advance
 // itself; nothing shared between iterations is touched).
 var objectAccessor = map[string]bool{"Inspect": true, "Interface": true, "Type": true, "Equals": true, "IsTruthy": true, "String": true, "HashKey": true, "Cost": true, "Compare": true, "Value": true}
+
+// ---------------------------------------------------------------- R4
+
+// c05r4: the front end (lexer, token, ast, parser, compiler, op) keeps no
+// package-level state that is written after initialisation.  Bytecode, function
+// ids and error text must be a function of the source and the options alone; a
+// process-wide counter or cache makes them depend on what the process compiled
+// before.
+func c05r4(c *core.Ctx) {
+	p := c.P
+	front := []string{"lexer", "token", "ast", "parser", "compiler", "op"}
+	n := 0
+	for _, rel := range front {
+		if !p.HasPkg(rel) {
+			continue
+		}
+		pk := p.Pkg(rel)
+		sp := p.SSAPkg(pk)
+		if sp == nil {
+			core.Undecidedf("no SSA package for %s", rel)
+		}
+		var names []string
+		for name, m := range sp.Members {
+			if _, ok := m.(*ssa.Global); ok {
+				names = append(names, name)
+			}
+		}
+		sort.Strings(names)
+		for _, name := range names {
+			g := sp.Members[name].(*ssa.Global)
+			if strings.HasPrefix(name, "init$") || !g.Pos().IsValid() {
+				continue
+			}
+			if strings.HasSuffix(p.Fset.Position(g.Pos()).Filename, "_test.go") {
+				continue
+			}
+			n++
+			// written outside init: a store to the global, a store/map update through it,
+			// or its address passed to a call (atomic ops, pointer-receiver methods)
+			bad := ""
+			for fn := range p.AllFunctions() {
+				if fn.Blocks == nil || fn.Pkg != sp || bad != "" {
+					continue
+				}
+				root := fn
+				for root.Parent() != nil {
+					root = root.Parent()
+				}
+				if root.Name() == "init" || strings.HasPrefix(root.Name(), "init#") {
+					continue
+				}
+				if strings.HasSuffix(p.Fset.Position(fn.Pos()).Filename, "_test.go") {
+					continue
+				}
+				for _, b := range fn.Blocks {
+					for _, in := range b.Instrs {
+						switch x := in.(type) {
+						case *ssa.Store:
+							if globalAddr(x.Addr) == g {
+								bad = "stored at " + p.Pos(x.Pos())
+							}
+						case *ssa.MapUpdate:
+							if globalLoad(x.Map) == g {
+								bad = "map entry written at " + p.Pos(x.Pos())
+							}
+						case ssa.CallInstruction:
+							for _, a := range x.Common().Args {
+								if globalAddr(a) == g {
+									t := g.Type().(*types.Pointer).Elem()
+									if isSyncOnceOrMutex(t) {
+										continue
+									}
+									bad = "address passed to " + x.Common().Value.Name() + " at " + p.Pos(x.Pos())
+								}
+							}
+						}
+					}
+				}
+			}
+			c.Check(bad == "", rel+"."+name+"|package-state-read-only", p.Pos(g.Pos()),
+				"package-level variable "+rel+"."+name+" is not written after initialisation"+ifs(bad != "", ": "+bad+" — compiled output and messages would depend on the process history"))
+		}
+	}
+	c.Stat("frontend_package_variables", n)
+}
+
+func globalAddr(v ssa.Value) *ssa.Global {
+	for {
+		switch x := v.(type) {
+		case *ssa.Global:
+			return x
+		case *ssa.FieldAddr:
+			v = x.X
+		case *ssa.IndexAddr:
+			v = x.X
+			if u, ok := v.(*ssa.UnOp); ok && u.Op == token.MUL { // element of a slice held in the global
+				v = u.X
+			}
+		default:
+			return nil
+		}
+	}
+}
+
+func globalLoad(v ssa.Value) *ssa.Global {
+	if u, ok := v.(*ssa.UnOp); ok && u.Op == token.MUL {
+		return globalAddr(u.X)
+	}
+	return nil
+}
+
+func isSyncOnceOrMutex(t types.Type) bool {
+	n := core.NamedOf(t)
+	if n == nil || n.Obj().Pkg() == nil || n.Obj().Pkg().Path() != "sync" {
+		return false
+	}
+	switch n.Obj().Name() {
+	case "Once", "Mutex", "RWMutex":
+		return true
+	}
+	return false
+}
